@@ -220,5 +220,5 @@ fn oracle(c: &CellCase, rec: &Rec, _: &Ctx) -> Result<(), String> {
 }
 
 pub fn parts() -> Vec<PartDef> {
-    vec![part("cells", 400_000, 20_000_000, strat, oracle)]
+    vec![part("cells", 6_000_000, 120_000_000, strat, oracle)]
 }
